@@ -22,6 +22,9 @@ PROPS_PART = {
                dict(unit='server_query_dispatch', which='all', fns=['handle_non_axfr_query']),
                dict(unit='query_helpers', which='all', fns=['execute_allowing_truncation', 'from', 'add_additional_addresses']),
                dict(unit='query_addl', which='all', fns=['do_referral', 'do_additional_section_processing'])],
+        native=[dict(bin='bnd_server_answers', when='quick',
+                     bound='64 variants (6 toggles) of a ~75-record zone ap.ex. (alone in a SingleZoneCatalog / with a child zone two labels below an entry-less node, a child zone at the delegation and a class-CH zone in a HashMapTreeCatalog) and a zone bg. with RRsets/referrals overflowing 512/1232 octets (queries to bg. also TSIG-signed) x every owner name, a child of each, 30-38 extra names (mixed case, outside) x 10 QTYPEs (A NS CNAME SOA MX TXT AAAA SRV ANY TYPE257) x QCLASS IN (+CH) x EDNS none/1232/4096/600 x TCP + UDP with response buffers of 1232/65535/70000 octets',
+                     what='UDP length <= 512 / clamp(requestor size, 512, 1232) also with an oversized buffer; TCP never TC; TC => no records; complete (TCP) response fits => UDP response identical; otherwise a UDP response with TC clear has the same RCODE/AA/answer/authority, a sub-multiset of the additional records and all in-bailiwick glue (incl. a name server named like the delegated zone)')],
         kani=[], cex={},
         unverified=['"UDP response identical to the TCP response whenever it fits, otherwise differing only by omitted optional additionals" (2-safety): not a single-run contract',
                     'final(response_buf) is not linked to the Writer buffer (see notes/agent_reports/server.md): byte-level statements are about any buffer satisfying finish\'s postcondition'],
@@ -42,6 +45,16 @@ PROPS_PART = {
                dict(unit='server_msg', which='all', fns=['handle_message', 'handle_message_with_context']),
                dict(unit='query_answer', which='all'), dict(unit='query_addl', which='all'), dict(unit='query_cname', which='all')],
         kani=[], cex={},
+        native=[dict(bin='bnd_writer', when='quick',
+                     bound='see C12 (operation sequences on the Writer incl. set_edns, set_tsig, clear_rrs, multi-record RRsets failing part-way at every limit)',
+                     what='writer clauses of C02 on the real Writer: the finished message decodes completely under an independent RFC 1035 decoder, header counts match the questions/records present, '
+                          'the message ends exactly after the last record, one OPT directly after the records, the TSIG record last; after clear_rrs nothing refers to discarded data'),
+                dict(bin='bnd_server_scan', when='quick',
+                     bound='tier A: 16 opcodes x QR x 3 flag sets x 3 values of the 4th header octet x (2 + 18 x 2) question variants (QDCOUNT 0/1/2; compressed, self-pointing, cut-off, 255/256-octet QNAMEs; QTYPE IXFR/AXFR/MAILB/MAILA/ANY; QCLASS ANY/CH) x 5 additional menus x trailing octet 0/1; tier B: 9 answer/authority layouts (A, OPT, TSIG) x every sequence of <= 2 additional records over a 32-item menu (plain/compressed/overrunning/cut records; OPT version 0/1/255, ext-rcode 0x80, DO, sizes 0..65535, non-root / self-pointing owner, broken option framing, overrunning RDLENGTH; TSIG unknown key/algorithm, class IN, TTL 5 / 0x80000000, malformed, compressed owner) and <= 3 over an 8-item menu x 4 opcode/question variants x count tweaks (ARCOUNT+1/-1/65535, ANCOUNT+1) x trailing octet; tier C: every prefix of the tier-B QUERY messages with <= 1 additional record (9 layouts) or 2 (no answer/authority records); tier D: TSIG key/algorithm names of 3..255 octets x 7 EDNS settings x 2 QNAMEs; tier E: 24 QNAMEs x 12 QTYPEs x 7 QCLASSes x 7 opcodes on a nested 3-class catalog; tier F: 23 names x 11 QTYPEs x 3 EDNS settings on zones with malformed RDATA / without SOA; each over UDP and TCP, exactly-sized and oversized response buffer, up to 9 servers (payload 512/1232/4096/65535, with/without keys, RRL off / never limiting / 1 per s)',
+                     what='every response of the enumeration decodes completely under the independent decoder (wire_ref.rs/srv_ref.rs): counts match, message ends after the last record, names/pointers valid and backward, OPT at most once and in the additional section, TSIG last'),
+                dict(bin='bnd_server_answers', when='quick',
+                     bound='64 variants (6 toggles) of a ~75-record zone ap.ex. (alone in a SingleZoneCatalog / with a child zone two labels below an entry-less node, a child zone at the delegation and a class-CH zone in a HashMapTreeCatalog) and a zone bg. with RRsets/referrals overflowing 512/1232 octets (queries to bg. also TSIG-signed) x every owner name, a child of each, 30-38 extra names (mixed case, outside) x 10 QTYPEs (A NS CNAME SOA MX TXT AAAA SRV ANY TYPE257) x QCLASS IN (+CH) x EDNS none/1232/4096/600 x TCP + UDP with response buffers of 1232/65535/70000 octets',
+                     what='every response (incl. truncated, SERVFAIL after a CNAME loop, TSIG-signed with a key name sharing labels with discarded RDATA names, RRsets failing part-way at the size limit) decodes completely under the independent decoder')],
         unverified=['whole-response decoding theorem (composition of the per-operation contracts)',
                     'write_compressed_unhinted_name: assumed contract, bounded Kani only (thorough tier of C12/C13)'],
         assumptions=['see C12, C13, C03, C05'],
